@@ -1,7 +1,14 @@
 """Claim texts live in tools/props.d/Cxx.json (key `claim`); this module only adds the bookkeeping."""
 from props import CLAIMS  # noqa: F401
 
-HOOK_COMMITS = ["1f65a66"]
+import subprocess as _sp
+def _hook_commits():
+    try:
+        out = _sp.run(["git", "-C", "/repo", "log", "--reverse", "--format=%h %s"], capture_output=True, text=True).stdout
+        return [l.split()[0] for l in out.splitlines() if l.split(" ", 1)[1].startswith("verif hooks:")] or ["1f65a66"]
+    except Exception:
+        return ["1f65a66"]
+HOOK_COMMITS = _hook_commits()
 
 _PENDING = "model and theorems not built yet in this round (planned, see DESIGN.md section 5); not claimed until its check exists"
 NOT_APPLICABLE = {f"C{i:02d}": _PENDING for i in range(1, 21)}
